@@ -312,6 +312,8 @@ type xGenOpts struct {
 	MaxDepth    int
 	MultiOp     bool
 	BadInputPct int // chance that a variable's raw value is a one-step mutant of a conformant one (C05)
+	NestedVarPct int // chance that a field of an input-object literal is written as a variable (default 20)
+	OmitVarPct   int // chance that a nullable / defaulted variable is not supplied (default 25)
 }
 
 type xGen struct {
@@ -396,7 +398,11 @@ func (g *xGen) literal(t *xTy, depth int, allowVar bool) *xValue {
 		if !required && (depth <= 0 || g.r.Chance(45)) {
 			continue
 		}
-		if allowVar && g.r.Chance(20) && f.Type.named() != "In0" && f.Type.named() != "In1" {
+		nv := g.o.NestedVarPct
+		if nv == 0 {
+			nv = 20
+		}
+		if allowVar && g.r.Chance(nv) && f.Type.named() != "In0" && f.Type.named() != "In1" {
 			// a variable nested inside an input-object literal
 			vn := "n_" + t.Name + "_" + f.Name
 			g.varTypes[vn] = f.Type
@@ -775,7 +781,11 @@ func (g *xGen) inputs(op *xOp) map[string]interface{} {
 	in := map[string]interface{}{}
 	for _, v := range op.Vars {
 		nullable := v.Type.Kind != "nonnull"
-		if (nullable || v.Default != nil) && g.r.Chance(25) {
+		ov := g.o.OmitVarPct
+		if ov == 0 {
+			ov = 25
+		}
+		if (nullable || v.Default != nil) && g.r.Chance(ov) {
 			if g.r.Bool() {
 				in[v.Name] = nil
 			}
